@@ -8,6 +8,7 @@ Definition run (kind : Z) (inp : list Z) : list Z :=
   match kind with
   | 101 => run_leech true inp
   | 102 => run_piecedl inp
+  | 103 => run_verifier inp
   | 201 => run_new_pieces inp
   | 202 => run_calc_blocks inp
   | 203 => run_section_io inp
@@ -61,6 +62,7 @@ Definition mon (kind : Z) (inp obs : list Z) : bool :=
   match kind with
   | 101 => list_eqb_Z (run_leech true inp) obs
   | 102 => list_eqb_Z (run_piecedl inp) obs
+  | 103 => list_eqb_Z (run_verifier inp) obs
   | 201 => mon_new_pieces inp obs
   | 202 => mon_calc_blocks inp obs
   | 203 => mon_section_io inp obs
